@@ -1,8 +1,9 @@
 #!/bin/bash
-# exact comparison with the baseline: every stable_pass test must pass
-cd /repo && /venv/bin/python -m pytest -q -p no:cacheprovider -n 8 --timeout=900 --junitxml=/verif/scratch/junit.xml >/dev/null 2>&1
+# exact comparison with the baseline: every stable_pass test must pass (exit 1 otherwise)
+mkdir -p /verif/scratch
+cd /repo && env -u XLCALCULATOR_VERIF /venv/bin/python -m pytest -q -p no:cacheprovider -n 8 --timeout=900 --junitxml=/verif/scratch/junit.xml >/dev/null 2>&1
 python3 - <<'PY'
-import json, xml.etree.ElementTree as ET
+import json, sys, xml.etree.ElementTree as ET
 b=set(json.load(open('/root/.vp/BASELINE.json'))['stable_pass'])
 ok=set()
 for tc in ET.parse('/verif/scratch/junit.xml').getroot().iter('testcase'):
@@ -10,4 +11,5 @@ for tc in ET.parse('/verif/scratch/junit.xml').getroot().iter('testcase'):
         ok.add(f"{tc.get('classname')}::{tc.get('name')}")
 missing=sorted(b-ok)
 print('baseline', len(b), 'passing now', len(ok & b), 'MISSING', missing[:10])
+sys.exit(1 if missing else 0)
 PY
